@@ -309,7 +309,7 @@ func init() {
 				"distinct_nontrivial":           r.Counters["true_results"],
 			}
 		},
-		Rule: "per ecosystem: every comparator of the documented syntax table x every bound of a stride sub-universe of U_E (plus one bound per distinct letter) x every probe; every comparator pair x AND separator x bound pair x probe; every comparator pair x OR separator; (x AND y) OR z. Expected value computed from the real Compare. states = distinct range strings built; transitions = range parses + Contains calls; distinct_nontrivial = evaluations whose result is true (range and probe interact non-vacuously).",
+		Rule:        "per ecosystem: every comparator of the documented syntax table x every bound of a stride sub-universe of U_E (plus one bound per distinct letter) x every probe; every comparator pair x AND separator x bound pair x probe; every comparator pair x OR separator; (x AND y) OR z. Expected value computed from the real Compare. states = distinct range strings built; transitions = range parses + Contains calls; distinct_nontrivial = evaluations whose result is true (range and probe interact non-vacuously).",
 		Assumptions: []string{"bounds beginning with a comparator character or containing separator characters are out of scope (property text)", "syntax table (comparators, separators) is written from the documentation; maven has no comparator syntax"},
 	})
 }
